@@ -462,6 +462,89 @@ impl Seek for SparseReader {
     }
 }
 
+/// A seekable stream of `len` bytes whose content is a function of the offset (the 8-byte word at index w is
+/// w * PATTERN_K, little endian): objects larger than memory whose every byte can still be checked.
+/// `chunk` caps the bytes returned by one read() (short reads).
+#[derive(Debug)]
+pub struct PatternReader {
+    pub len: u64,
+    pub pos: u64,
+    pub chunk: usize,
+}
+
+pub const PATTERN_K: u64 = 0x9E37_79B9_7F4A_7C15;
+
+pub fn pattern_byte(off: u64) -> u8 {
+    ((off / 8).wrapping_mul(PATTERN_K) >> (8 * (off % 8))) as u8
+}
+
+/// does `data` equal the pattern at [off, off + data.len()) ?
+pub fn pattern_matches(off: u64, data: &[u8]) -> bool {
+    let mut o = off;
+    let mut i = 0;
+    while i < data.len() && o % 8 != 0 {
+        if data[i] != pattern_byte(o) {
+            return false;
+        }
+        i += 1;
+        o += 1;
+    }
+    while i + 8 <= data.len() {
+        let w = (o / 8).wrapping_mul(PATTERN_K).to_le_bytes();
+        if data[i..i + 8] != w {
+            return false;
+        }
+        i += 8;
+        o += 8;
+    }
+    while i < data.len() {
+        if data[i] != pattern_byte(o) {
+            return false;
+        }
+        i += 1;
+        o += 1;
+    }
+    true
+}
+
+impl Read for PatternReader {
+    fn read(&mut self, buf: &mut [u8]) -> std::io::Result<usize> {
+        let left = self.len.saturating_sub(self.pos);
+        let n = (buf.len() as u64).min(left).min(self.chunk.max(1) as u64) as usize;
+        let mut o = self.pos;
+        let mut i = 0;
+        while i < n && o % 8 != 0 {
+            buf[i] = pattern_byte(o);
+            i += 1;
+            o += 1;
+        }
+        while i + 8 <= n {
+            buf[i..i + 8].copy_from_slice(&(o / 8).wrapping_mul(PATTERN_K).to_le_bytes());
+            i += 8;
+            o += 8;
+        }
+        while i < n {
+            buf[i] = pattern_byte(o);
+            i += 1;
+            o += 1;
+        }
+        self.pos += n as u64;
+        Ok(n)
+    }
+}
+
+impl Seek for PatternReader {
+    fn seek(&mut self, pos: SeekFrom) -> std::io::Result<u64> {
+        let np: i128 = match pos {
+            SeekFrom::Start(p) => p as i128,
+            SeekFrom::End(d) => self.len as i128 + d as i128,
+            SeekFrom::Current(d) => self.pos as i128 + d as i128,
+        };
+        self.pos = np.max(0) as u64;
+        Ok(self.pos)
+    }
+}
+
 pub fn transfer_config(o: &ObjSpec) -> Result<TransferConfig, String> {
     let oti = match &o.oti {
         Some(s) => Some(s.build()?),
